@@ -393,6 +393,9 @@ func runSpec(path string) {
 		fmt.Fprintln(os.Stderr, "wfrun:", err)
 		os.Exit(64)
 	}
+	if os.Getenv("VERIF_DEBUGLOG") != "" {
+		sp.InitLogDebug() // the documented DEBUG level, chosen before the workflow is made (the first initialisation wins)
+	}
 	for it := 1; it < s.Run.Repeat; it++ {
 		wfi, _ := buildWorkflow(s)
 		wfi.Run()
